@@ -123,4 +123,70 @@ def krCheckRow (tab : Table) (L l : Nat) : Bool :=
 def krCheckAll (tab : Table) (L : Nat) : Bool :=
   (List.range (L + 1)).all fun l => krCheckRow tab L l
 
+/-! ### the documented formula of `_sympy_legendre`
+
+`P_{l,m}(z, y) = √((2l+1)/(4π) · (l−m)!/(l+m)!) · y^m · 1/(2^l l!) · d^{l+m}/dz^{l+m} (z² − 1)^l`   (no Condon–Shortley phase, `P(l,−m) = P(l,m)`).
+`stdCheck1` compares a row of the regenerated table with this formula, coefficient by coefficient (squares and signs, all rational). -/
+
+def addInt : List Int → List Int → List Int
+  | [], q => q
+  | p, [] => p
+  | a :: p, b :: q => (a + b) :: addInt p q
+
+/-- `(z² − 1) · p` -/
+def mulZ2m1 (p : List Int) : List Int := addInt (0 :: 0 :: p) (p.map fun c => -c)
+
+def z2m1Pow : Nat → List Int
+  | 0 => [1]
+  | l + 1 => mulZ2m1 (z2m1Pow l)
+
+def derivAux : Nat → List Int → List Int
+  | _, [] => []
+  | k, c :: cs => ((k : Int) * c) :: derivAux (k + 1) cs
+
+/-- `d/dz` on coefficient lists (lowest degree first) -/
+def derivInt : List Int → List Int
+  | [] => []
+  | _ :: cs => derivAux 1 cs
+
+def derivIter : Nat → List Int → List Int
+  | 0, p => p
+  | n + 1, p => derivInt (derivIter n p)
+
+def fact : Nat → Nat
+  | 0 => 1
+  | n + 1 => (n + 1) * fact n
+
+/-- coefficients of `d^{l+m}/dz^{l+m} (z² − 1)^l` -/
+def rodriguesInt (l m : Nat) : List Int := derivIter (l + m) (z2m1Pow l)
+
+/-- `1/(2^l l!)` -/
+def rodScale (l : Nat) : Q := Q.mk' 1 (2 ^ l * fact l)
+
+/-- `(2l+1)/4 · (l−m)!/(l+m)!`  (the square of the normalisation constant of `_sympy_legendre`, times `π`) -/
+def normSq (l m : Nat) : Q := Q.mk' (((2 * l + 1) * fact (l - m) : Nat) : Int) (4 * fact (l + m))
+
+def sameSign (a t : Q) : Bool := (decide (0 < a.n) && decide (0 < t.n)) || (decide (a.n < 0) && decide (t.n < 0))
+
+/-- `c = t·√q` for a table coefficient `c` (zero or a single term `a√r`) -/
+def coefOK (q : Q) (c : SqrtQ) (t : Q) : Bool :=
+  match c with
+  | [] => t.isZero
+  | [(r, a)] => decide (0 < r) && Q.beq (a * a * Q.ofNat r) (t * t * q) && sameSign a t
+  | _ => false
+
+def allOK (q : Q) : UPoly → List Q → Bool
+  | [], [] => true
+  | c :: p, t :: E => coefOK q c t && allOK q p E
+  | _, _ => false
+
+/-- the row `(l, k)` of the table IS the documented formula: `√(normSq/π) · y^m · (1/(2^l l!)) d^{l+m}/dz^{l+m}(z²−1)^l` -/
+def stdCheck1 (tab : Table) (l k : Nat) : Bool :=
+  let m := absDiff k l
+  match rowPoly m (tab.getD (l ^ 2 + k) []) with
+  | some p => allOK (normSq l m) p ((rodriguesInt l m).map fun c => Q.ofInt c * rodScale l)
+  | none => false
+
+def stdCheck (tab : Table) (l : Nat) : Bool := (List.range (2 * l + 1)).all fun k => stdCheck1 tab l k
+
 end E3nnVerif.Legendre
